@@ -228,6 +228,14 @@ func RunSync(seed int64, idx int) *Result {
 			}
 		}
 		if !quiesce() {
+			// every SPI call has been released (gate open) and the worker still takes nothing from its queue: if that is still so
+			// 10 s later and the sync has not taken effect, the worker is stuck where it was told to leave
+			time.Sleep(10 * time.Second)
+			if hh, _ := nd.HV(); eligible && hh < want && nd.Witness(1) == 0 {
+				_, tops := libGoroutines()
+				net.violate("C14", "newest-sync-did-not-take-effect", "UpdateState heights %v returned nil while the node was deciding height %d; every SPI call was released, yet 15 s later the worker takes nothing from its queue and the node is at height %d (expected at least %d); library goroutines: %v", hs, h0, hh, want, tops)
+				net.violate("C15", "blocking-spi-call-stalls-the-node", "SPI calls that wait on their context were released when the node was told to leave height %d (committee contract reports cancellation with its own error=%v), yet the worker never came back: it is still at height %d 15 s later; library goroutines: %v", h0, ownErr, hh, tops)
+			}
 			break
 		}
 		h1, v1 := nd.HV()
